@@ -618,6 +618,15 @@ fn enum_calls(case: &Json) -> (String, Vec<String>) {
         calls.push(format!("{callee}(*{b})"));
         calls.push(format!("{callee}(**{b})"));
     }
+    if case["all_pairs"].as_bool().unwrap_or(false) {
+        // Complete enumeration of the two-argument calls of this callee over the catalogue.
+        calls.clear();
+        for a in ENUM_ARGS {
+            for b in ENUM_ARGS {
+                calls.push(format!("{callee}({a}, {b})"));
+            }
+        }
+    }
     if let Some(explicit) = case["calls"].as_array() {
         calls = explicit.iter().filter_map(|x| x.as_str().map(|s| s.to_owned())).collect();
     }
@@ -876,7 +885,61 @@ fn execute_enum(case: &Json, mut o: Outcome) -> Outcome {
             }
         });
     }
+    // load() statements that must fail: no loader configured, unknown module, unknown or private
+    // symbol - errors like any other (span of the load statement in the evaluated file, evaluator
+    // usable afterwards).
+    let lib = Module::with_temp_heap(|m| {
+        {
+            let mut e = Evaluator::new(&m);
+            if let Ok(ast) = kit::parse("lib.star", "pub_x = 1\n_priv_x = 2\n") {
+                let _ = e.eval_module(ast, kit::globals());
+            }
+        }
+        m.freeze()
+    });
+    if let Ok(lib) = lib {
+        let loader = kit::MapLoader { modules: [("lib".to_owned(), lib)].into_iter().collect() };
+        let lfiles = vec!["ld.star".to_owned(), "lib.star".to_owned()];
+        let which = (case["callee_index"].as_u64().unwrap_or(0) % 5) as usize;
+        let (text, with_loader) = [
+            ("zl0 = 1\nload(\"lib\", \"pub_x\")\nzl1 = 2\n", false),
+            ("zl0 = 1\nload(\"nolib\", \"pub_x\")\n", true),
+            ("load(\"lib\", \"pub_x\", \"no_such_symbol\")\n", true),
+            ("load(\"lib\", y = \"_priv_x\")\n", true),
+            ("zl0 = 1\nload(\"lib\", \"pub_x\")\nload(\"lib\", z = \"pub_y\")", true),
+        ][which];
+        Module::with_temp_heap(|m| {
+            let mut e = Evaluator::new(&m);
+            if with_loader {
+                e.set_loader(&loader);
+            }
+            match kit::parse("ld.star", text) {
+                Err(_) => {}
+                Ok(ast) => match e.eval_module(ast, kit::globals()) {
+                    Ok(_) => o.violate("failing-load-succeeded", "load-error", format!("`{}` (loader configured: {with_loader}) succeeded", text.replace('\n', "; "))),
+                    Err(err) => {
+                        o.bump("probe.failing_load_statements", 1);
+                        for (class, detail) in check_error(&err, &lfiles, true) {
+                            o.violate(&class, &class, format!("`{}` (loader configured: {with_loader}): {detail}", text.replace('\n', "; ")));
+                        }
+                    }
+                },
+            }
+            if e.call_stack_count() != 0 {
+                o.violate("callstack-not-empty", "callstack-not-empty", format!("after a failing load: call_stack_count() == {}", e.call_stack_count()));
+            }
+            let before = kit::ctx(|x| x.transcript.len());
+            let r = run_step(&mut e, &m, &json!({"kind": "module", "text": PROBE}), 999, &["h999.star".to_owned()]);
+            let _ = kit::ctx(|x| x.transcript.split_off(before));
+            if let Some(d) = kit::diff_transcripts(&probe_ref, &r.transcript) {
+                o.violate("probe-differs-after-failure", "probe", format!("after a failing load statement: {d}"));
+            }
+        });
+    }
     o.bump("enum_cases", 1);
+    if case["all_pairs"].as_bool().unwrap_or(false) {
+        o.bump("enum_cases_all_pairs_of_two_arguments", 1);
+    }
     o.log_hash = kit::hash_lines(&log);
     o
 }
@@ -918,6 +981,11 @@ impl World for C07 {
             let mut r = Rng::new(run_seed(seed, "C07repeat", index));
             let p = REPEAT_FAILS[r.usize(REPEAT_FAILS.len())];
             return json!({"mode": "repeat", "program": p, "k": *r.pick(&[60u64, 230, 230, 300])});
+        }
+        if index % 8 == 6 {
+            // All pairs of catalogue values as the two arguments of one callee (global builtins
+            // first, then the methods of each receiver).
+            return json!({"mode": "enum", "callee_index": index / 8, "all_pairs": true});
         }
         if index % 4 == 3 {
             // Enumeration of builtin / method calls over the extreme-value catalogue: every
